@@ -73,6 +73,15 @@ void SoPlexBase<R>::_optimizeRational(volatile bool* interrupt)
                        _basisStatusCols.size());
    }
 
+   // remove the persistent scaling an earlier floating-point solve has left in the real LP: the refinement rounds set
+   // sides, bounds and objective computed from the (unscaled) rational LP and reload the LP without its scaler
+   if(_isRealLPScaled)
+   {
+      _solver.unscaleLPandReloadBasis();
+      _isRealLPScaled = false;
+      ++_unscaleCalls;
+   }
+
    // store objective, bounds, and sides of Real LP in case they will be modified during iterative refinement
    _storeLPReal();
 
